@@ -300,7 +300,7 @@ impl World {
                 let tx = self.pick_tx(ctx, None);
                 let is_connect = integral_u32(tx).and_then(|t| self.model.pending.get(&t)).map(|p| matches!(p, cm::Pend::Connect { .. })).unwrap_or(false);
                 if is_connect {
-                    if self.connect_result_sent {
+                    if self.connect_result_sent && self.mode == FMode::C10 {
                         // at most one of several pending connects is answered with _result
                         (msg::command(0, ts, "_error", tx, AV::Null, vec![msg::status_object("error", "NetConnection.Connect.Rejected", "busy")]), 3)
                     } else {
@@ -562,6 +562,27 @@ impl World {
             ],
         );
         let sid_guess = self.model.active.unwrap_or(0);
+        // outside C10 the model is only a guide (it stops following at the first disagreement
+        // it is not asked to report): then any stream id a result ever mentioned is acceptable
+        let alive = self.model_alive;
+        let mut all_sids: Vec<u32> = self.cli.c.known_sids.clone();
+        all_sids.push(sid_guess);
+        let media_want = |type_id: u8, ts: u32, len: usize, hash: u64, droppable: bool| -> Want {
+            if alive {
+                Want::Media { type_id, msid: sid_guess, ts, len, hash, droppable }
+            } else if type_id == 9 {
+                Want::OnStreams { type_ids: &[9], msids: all_sids.clone() }
+            } else {
+                Want::OnStreams { type_ids: &[8], msids: all_sids.clone() }
+            }
+        };
+        let stream_want = |type_ids: &'static [u8]| -> Want {
+            if alive {
+                Want::OnStreams { type_ids, msids: vec![sid_guess] }
+            } else {
+                Want::OnStreams { type_ids, msids: all_sids.clone() }
+            }
+        };
         match kind {
             0 => {
                 let app = ctx.ch.pick("op.arg.app", &["live", "app2", "x/y"]).to_string();
@@ -639,14 +660,14 @@ impl World {
                     0 => {
                         ctx.trt(|now| format!("  t={}ns app: publish_video_data({} bytes, ts {}, droppable {})", now, len, ts, droppable));
                         (
-                            self.cli.app_result(ctx, Want::Media { type_id: 9, msid: sid_guess, ts, len, hash: payload_hash(&data), droppable }, |s| s.publish_video_data(Bytes::from(data.clone()), RtmpTimestamp::new(ts), droppable)),
+                            self.cli.app_result(ctx, media_want(9, ts, len, payload_hash(&data), droppable), |s| s.publish_video_data(Bytes::from(data.clone()), RtmpTimestamp::new(ts), droppable)),
                             COut::MediaPkt { type_id: 9, msid: sid_guess, ts, len, hash: payload_hash(&data) },
                         )
                     }
                     1 => {
                         ctx.trt(|now| format!("  t={}ns app: publish_audio_data({} bytes, ts {}, droppable {})", now, len, ts, droppable));
                         (
-                            self.cli.app_result(ctx, Want::Media { type_id: 8, msid: sid_guess, ts, len, hash: payload_hash(&data), droppable }, |s| s.publish_audio_data(Bytes::from(data.clone()), RtmpTimestamp::new(ts), droppable)),
+                            self.cli.app_result(ctx, media_want(8, ts, len, payload_hash(&data), droppable), |s| s.publish_audio_data(Bytes::from(data.clone()), RtmpTimestamp::new(ts), droppable)),
                             COut::MediaPkt { type_id: 8, msid: sid_guess, ts, len, hash: payload_hash(&data) },
                         )
                     }
@@ -656,7 +677,7 @@ impl World {
                         md.video_width = Some(ctx.ch.draw("op.arg.metav", 4000) as u32);
                         md.audio_is_stereo = Some(true);
                         md.encoder = Some("sim".to_string());
-                        (self.cli.app_result(ctx, Want::OnStreams { type_ids: &[18], msids: vec![sid_guess] }, |s| s.publish_metadata(&md)), COut::MetaPkt { msid: sid_guess, meta: md.clone() })
+                        (self.cli.app_result(ctx, stream_want(&[18]), |s| s.publish_metadata(&md)), COut::MetaPkt { msid: sid_guess, meta: md.clone() })
                     }
                 };
                 let (ok, outs) = match &r {
@@ -683,7 +704,7 @@ impl World {
                 let play = kind == 4;
                 ctx.trt(|now| format!("  t={}ns app: {}()", now, if play { "stop_playback" } else { "stop_publishing" }));
                 ctx.ev(125, play as u64, 0);
-                let r = self.cli.app_results(ctx, Want::OnStreams { type_ids: &[20], msids: vec![sid_guess] }, |s| if play { s.stop_playback() } else { s.stop_publishing() });
+                let r = self.cli.app_results(ctx, stream_want(&[20]), |s| if play { s.stop_playback() } else { s.stop_publishing() });
                 let (ok, outs) = match &r {
                     Ok(o) => (true, tracked(o)),
                     Err(_) => (false, Some(vec![])),
